@@ -11,6 +11,7 @@ run_one() {
   prop=$(python3 -c "import json,sys; m=json.load(open('$d/meta.json')); p=m.get('property','none'); print(' '.join(m.get('checks', [])) if p.startswith('none') else p)")
   [ -z "$prop" ] && prop="C04"
   /verif/tools/pmut.sh $name $d/patch.diff $prop > $out/$name.log 2>&1
+  if grep -q "patch does not apply" $out/$name.log; then echo "$name [$prop]: STALE (patch no longer applies to HEAD; see meta.json)"; return; fi
   v=$(grep -c "VIOLATION" $out/$name.log); n=$(grep "VIOLATION" $out/$name.log | grep -vc "no-failing-input-found")
   if python3 -c "import json; exit(0 if json.load(open('$d/meta.json')).get('property','none').startswith('none') else 1)"; then
     [ "$v" = 0 ] && echo "$name [$prop]: QUIET" || echo "$name [$prop]: ALARM ($v, with input $n)"
